@@ -81,23 +81,24 @@ VarType(c) == CASE c.role = "const" -> "constant" [] c.role = "cc" -> "computed_
 EqTypes(c) == CASE c.role = "cc" -> {"variable_based_constant", "true_constant"} [] c.role = "state" -> {"ode"} [] c.role = "alg" -> {"algebraic"} [] c.role = "nla" -> {"nla"} [] OTHER -> {}
 \* does class n read (through equations) the unknown of the implicit equation
 RECURSIVE ReadsUT(_, _, _)
-ReadsUT(sys, n, depth) == IF n = "t" \/ depth = 0 THEN FALSE ELSE IF n = "u" THEN TRUE ELSE LET c == Get(sys, n) IN \E j \in DOMAIN c.deps : ReadsUT(sys, c.deps[j], depth - 1)
+ReadsUT(sys, n, depth) == IF n = "t" \/ depth = 0 THEN FALSE ELSE IF n \in {"u", "w"} THEN TRUE ELSE LET c == Get(sys, n) IN \E j \in DOMAIN c.deps : ReadsUT(sys, c.deps[j], depth - 1)
 ErrTypes == {"invalid", "underconstrained", "overconstrained", "unsuitably_constrained"}
 \* components in which a class has a member variable: its home and every component of a class that reads it
 UsedIn(sys, n) == (IF n = "t" THEN {"A"} ELSE {Get(sys, n).home}) \cup {sys.classes[i].home : i \in {k \in DOMAIN sys.classes : \E j \in DOMAIN sys.classes[k].deps : sys.classes[k].deps[j] = n}}
 
 \* ---------------------------------------------------------------- well-posed systems of the bounded scope
 HasNla(sys) == sys.nla # NoneS
-NonConst(sys, n) == n = "t" \/ (n = "u" /\ HasNla(sys) /\ ~UConst(sys)) \/ (n \notin {"t", "u"} /\ Get(sys, n).role \in {"state", "alg"})
+HasW(sys) == sys.nla \in {"pair", "mixed"}
+NonConst(sys, n) == n = "t" \/ (n \in {"u", "w"} /\ HasNla(sys) /\ ~UConst(sys)) \/ (n \notin {"t", "u", "w"} /\ Get(sys, n).role \in {"state", "alg"})
 WellPosed(sys) ==
     \A i \in DOMAIN sys.classes : LET c == sys.classes[i] IN
-        /\ \A j \in DOMAIN c.deps : c.deps[j] = "t" \/ (c.deps[j] = "u" /\ HasNla(sys)) \/ (c.deps[j] # "u" /\ Has(sys, c.deps[j]))
+        /\ \A j \in DOMAIN c.deps : c.deps[j] = "t" \/ (c.deps[j] = "u" /\ HasNla(sys)) \/ (c.deps[j] = "w" /\ HasW(sys)) \/ (c.deps[j] \notin {"u", "w"} /\ Has(sys, c.deps[j]))
         /\ c.role = "const" => c.deps = <<>>
-        /\ c.role = "cc" => c.deps # <<>> /\ \A j \in DOMAIN c.deps : \/ (c.deps[j] = "u" /\ UConst(sys))       \* the solution of a constant implicit equation is a constant
-                                                                   \/ /\ c.deps[j] \notin {"t", "u"} /\ Get(sys, c.deps[j]).role \in {"const", "cc"}
+        /\ c.role = "cc" => c.deps # <<>> /\ \A j \in DOMAIN c.deps : \/ (c.deps[j] \in {"u", "w"} /\ UConst(sys))       \* the solution of a constant implicit equation is a constant
+                                                                   \/ /\ c.deps[j] \notin {"t", "u", "w"} /\ Get(sys, c.deps[j]).role \in {"const", "cc"}
                                                                       /\ (\E q \in 1..(i - 1) : sys.classes[q].name = c.deps[j])
         /\ c.role = "alg" => /\ (\E j \in DOMAIN c.deps : NonConst(sys, c.deps[j]))
-                             /\ \A j \in DOMAIN c.deps : c.deps[j] \in {"t", "u"} \/ (\E q \in 1..(i - 1) : sys.classes[q].name = c.deps[j]) \/ Get(sys, c.deps[j]).role = "state"
+                             /\ \A j \in DOMAIN c.deps : c.deps[j] \in {"t", "u", "w"} \/ (\E q \in 1..(i - 1) : sys.classes[q].name = c.deps[j]) \/ Get(sys, c.deps[j]).role = "state"
         /\ c.role = "state" => c.home = "A"
         /\ (\E j \in DOMAIN c.deps : c.deps[j] = "t") => HasStates(sys)
 Names == <<"x1", "x2", "x3">>
@@ -118,16 +119,16 @@ SystemsD(n, homes, zeroK, maxDeps) ==
            r \in [1..n -> {"const", "cc", "state", "alg"}]}
 Systems(n, homes, zeroK) == SystemsD(n, homes, zeroK, 2)
 \* systems coupled with the implicit equation u + u = 8 (+ nlaDep): classes may read u, the equation may read a state or t
-ReadsU(sys) == \E i \in DOMAIN sys.classes : \E j \in DOMAIN sys.classes[i].deps : sys.classes[i].deps[j] = "u"
+ReadsU(sys) == \E i \in DOMAIN sys.classes : \E j \in DOMAIN sys.classes[i].deps : sys.classes[i].deps[j] \in {"u", "w"}
 SystemsUK(n, homes, zeroK, kind) ==
-    LET alphabet == {Names[j] : j \in 1..n} \cup {"t", "u"} IN
+    LET alphabet == {Names[j] : j \in 1..n} \cup {"t", "u"} \cup (IF kind = "pair" THEN {"w"} ELSE {}) IN
     UNION {UNION {UNION {{sys \in {[classes |-> [i \in 1..n |-> Class(Names[i], r[i], 10 * i, IF zeroK /\ d[i] # <<>> THEN 0 ELSE i, d[i], h[i])], nla |-> kind, nlaDep |-> nd] :
                                      h \in SeqProd([i \in 1..n |-> IF r[i] = "state" THEN {"A"} ELSE homes], 1)} :
                                WellPosed(sys) /\ (ReadsU(sys) \/ ~UConst(sys))} :
                          d \in SeqProd([i \in 1..n |-> DepsFor(r[i], alphabet)], 1)} :
-                  nd \in {NoneS} \cup (IF \E i \in 1..n : r[i] = "state" THEN {"t"} \cup {Names[j] : j \in {k \in 1..n : r[k] = "state"}} ELSE {})} :
+                  nd \in {NoneS} \cup (IF kind # "pair" /\ \E i \in 1..n : r[i] = "state" THEN {"t"} \cup {Names[j] : j \in {k \in 1..n : r[k] = "state"}} ELSE {})} :
            r \in [1..n -> {"const", "cc", "state", "alg"}]}
-SystemsU(n, homes, zeroK) == SystemsUK(n, homes, zeroK, "one") \cup SystemsUK(n, homes, zeroK, "guess")
+SystemsU(n, homes, zeroK) == SystemsUK(n, homes, zeroK, "one") \cup SystemsUK(n, homes, zeroK, "guess") \cup SystemsUK(n, homes, zeroK, "pair")
 \* systems with unknowns of implicit equations:  u + u = 2k ;  u + w = s, u - w = d  (optionally with an initial guess)
 WithNla(sys, kind) == [sys EXCEPT !.nla = kind]
 =============================================================================
